@@ -87,9 +87,10 @@ def run_engine(work, jobs, extra_flags=(), timeout=None, tag='jobs'):
 # ---------------------------------------------------------------- native replay
 
 class Runner:
-    def __init__(self, work, race=False):
+    def __init__(self, work, race=False, pkg='spdxexp'):
         self.work = work
-        self.bin = work.path('runner.test' + ('.race' if race else ''))
+        self.pkg = pkg
+        self.bin = work.path('runner.%s.test' % pkg + ('.race' if race else ''))
         self.race = race
         self.built = False
         self.err = None
@@ -101,25 +102,25 @@ class Runner:
         hdir = os.path.join(VERIF, 'harness')
         repl = {}
         names = []
-        for f in sorted(glob.glob(os.path.join(hdir, 'spdxexp', '*.go'))):
-            repl[os.path.join(REPO, 'spdxexp', 'zz_verif_' + os.path.basename(f))] = f
+        for f in sorted(glob.glob(os.path.join(hdir, self.pkg, '*.go'))):
+            repl[os.path.join(REPO, self.pkg, 'zz_verif_' + os.path.basename(f))] = f
             with open(f) as fh:
                 names += re.findall(r'^func (VH_\w+)\(a \[\]string\)', fh.read(), re.M)
-        reg = self.work.path('registry_test.go')
+        reg = self.work.path('registry_%s_test.go' % self.pkg)
         with open(reg, 'w') as fh:
-            fh.write('//go:build verif\n\npackage spdxexp\n\nvar vHarnesses = map[string]func([]string){\n')
+            fh.write('//go:build verif\n\npackage %s\n\nvar vHarnesses = map[string]func([]string){\n' % ('main' if self.pkg == 'cmd' else self.pkg))
             for n in names:
                 fh.write('\t"%s": %s,\n' % (n, n))
             fh.write('}\n')
-        repl[os.path.join(REPO, 'spdxexp', 'zz_verif_registry_test.go')] = reg
-        repl[os.path.join(REPO, 'spdxexp', 'zz_verif_runner_test.go')] = os.path.join(hdir, 'runner', 'runner_test.go')
-        ov = self.work.path('overlay.json')
+        repl[os.path.join(REPO, self.pkg, 'zz_verif_registry_test.go')] = reg
+        repl[os.path.join(REPO, self.pkg, 'zz_verif_runner_test.go')] = os.path.join(hdir, 'runner' if self.pkg == 'spdxexp' else 'runner_cmd', 'runner_test.go')
+        ov = self.work.path('overlay.%s.json' % self.pkg)
         with open(ov, 'w') as fh:
             json.dump({'Replace': repl}, fh)
         cmd = ['go', 'test', '-c', '-tags', 'verif', '-vet=off', '-overlay', ov, '-o', self.bin]
         if self.race:
             cmd.append('-race')
-        cmd.append('./spdxexp')
+        cmd.append('./' + self.pkg)
         r = subprocess.run(cmd, cwd=REPO, env=GOENV, capture_output=True, text=True)
         if r.returncode != 0:
             self.err = (r.stdout + r.stderr)[-2000:]
@@ -136,7 +137,7 @@ class Runner:
         # a native crash (stack overflow, fatal error) kills the process: run in chunks and
         # bisect on failure
         def chunk(rs):
-            inp, outp = self.work.path('replay.in'), self.work.path('replay.out')
+            inp, outp = self.work.path('replay.%s.in' % self.pkg), self.work.path('replay.%s.out' % self.pkg)
             with open(inp, 'w') as fh:
                 for r in rs:
                     fh.write(json.dumps(r) + '\n')
@@ -295,15 +296,14 @@ def run_check(prop, tier, seed):
         step = max(1, len(ws) // max(1, nwit // max(1, len(asserts)))) if len(ws) > nwit else 1
         for jid, w in ws[::step]:
             wits.append(dict(kind='witness', assert_id=a, job=byid[jid], group=gof[jid], v={'vector': w, 'assert': a}))
-    runner = Runner(work, race=bool(spec.get('race')))
-    reqs = []
+    reqs = {}
     for i, c in enumerate(cands + wits):
         c['rid'] = 'r%d' % i
-        reqs.append(dict(id=c['rid'], harness=c['job']['harness'], args=c['job']['args'], vector=c['v']['vector']))
+        reqs.setdefault(c['group'].get('pkg', 'spdxexp'), []).append(dict(id=c['rid'], harness=c['job']['harness'], args=c['job']['args'], vector=c['v']['vector']))
     resp = {}
-    if reqs:
+    for pkg, rq in reqs.items():
         try:
-            resp = runner.run(reqs)
+            resp.update(Runner(work, race=bool(spec.get('race')), pkg=pkg).run(rq))
         except RuntimeError as e:
             inconcl.append(str(e)[:1500])
     validated = 0
